@@ -30,7 +30,7 @@ pub fn def() -> PropDef {
     PropDef {
         id: "C10",
         level: "fault_enumeration",
-        rule: "(A) the real acceptor (BobState::run over an in-memory duplex stream, backed by a real store actor) against a scripted initiator that owns a real replica and at every step chooses from {correct next frame, replay previous frame, Init again, Sync now, Abort(3 reasons), garbage frame with valid length, well-formed frame whose range bounds are record identifiers cut to 40 / 41 bytes, oversized length prefix, cut inside the next correct frame, close}: every script of <= d steps x accept callback {Allow, Reject(NotFound|AlreadySyncing|InternalServerError)}, and — wherever the acceptor has to end the session on its own (after a decline or after a frame that is an error for it) — the same script against a peer that keeps its stream open afterwards; (B) the real initiator (run_alice) against a scripted acceptor with the mirrored menu; (C) real initiator against real acceptor through a frame relay that injects one local fault {close the document, disable sync, shut the store actor down} on either side before its k-th incoming frame (and before the first outgoing one), for every k; oracle: both ends return Ok or Err within the deadline, no panic, the store actor of the side under test still answers after the session, BobState::into_outcome() callable after every outcome and the document of an accepted session still known (namespace()) so that its end can be reported, a declined request leaves the acceptor's store unchanged, a side whose document was closed / taken out of sync / whose actor was stopped before a frame it has to process reports an error, counters mirror when both ends return Ok; non-trivial = scenarios with at least one deviation from the correct protocol or one injected fault",
+        rule: "(A) the real acceptor (BobState::run over an in-memory duplex stream, backed by a real store actor) against a scripted initiator that owns a real replica and at every step chooses from {correct next frame, replay previous frame, Init again, an Init whose message already carries a signed entry, Sync now, Abort(3 reasons), garbage frame with valid length, well-formed frame whose range bounds are record identifiers cut to 40 / 41 bytes, oversized length prefix, cut inside the next correct frame, close}: every script of <= d steps x accept callback {Allow, Reject(NotFound|AlreadySyncing|InternalServerError)}, and — wherever the acceptor has to end the session on its own (after a decline or after a frame that is an error for it) — the same script against a peer that keeps its stream open afterwards; (B) the real initiator (run_alice) against a scripted acceptor with the mirrored menu; (C) real initiator against real acceptor through a frame relay that injects one local fault {close the document, disable sync, shut the store actor down} on either side before its k-th incoming frame (and before the first outgoing one), for every k; oracle: both ends return Ok or Err within the deadline, no panic, the store actor of the side under test still answers after the session, BobState::into_outcome() callable after every outcome and the document of an accepted session still known (namespace()) so that its end can be reported, a declined request leaves the acceptor's store unchanged, a side whose document was closed / taken out of sync / whose actor was stopped before a frame it has to process reports an error, counters mirror when both ends return Ok; non-trivial = scenarios with at least one deviation from the correct protocol or one injected fault",
         assumptions: &[
             "deadlines are hang detectors only: a scenario that exceeds 5 s is re-run once with 50 s and must hang again to count",
             "the transport is an in-memory duplex stream; QUIC stream semantics (finish/stopped) are outside",
@@ -63,9 +63,13 @@ pub enum Choice {
     /// plus a quarter of an author id): hostile, and must be an error, not a crash of the
     /// store actor
     ShortIds,
+    /// (initiator only) an `Init` frame whose reconciliation message already carries a validly
+    /// signed entry instead of a bare fingerprint — what no honest initiator sends, and what a
+    /// declined request must not get into the store
+    InitWithEntries,
 }
 
-const ALICE_MENU: [Choice; 12] = [
+const ALICE_MENU: [Choice; 13] = [
     Choice::Correct,
     Choice::ReplayPrev,
     Choice::Init,
@@ -78,6 +82,7 @@ const ALICE_MENU: [Choice; 12] = [
     Choice::CutInside,
     Choice::Close,
     Choice::ShortIds,
+    Choice::InitWithEntries,
 ];
 
 const BOB_MENU: [Choice; 11] = [
@@ -181,6 +186,22 @@ fn short_id_frame(init: bool) -> Vec<u8> {
         assert!(real[4] == 1, "MACHINERY: frame layout differs from the mirror");
     }
     out
+}
+
+/// An `Init` frame for document 0 whose message is what a one-entry replica answers to an empty
+/// peer: an item part carrying its (validly signed) entry.
+fn init_with_entries() -> Vec<u8> {
+    let ns = ns_id(0);
+    let mut one = Sut::memory_with(&[0]);
+    let _ = one.remote(ns, Spec::new(0, 1, b"zz9", 3, Val::X).signed());
+    let opening = Sut::memory_with(&[0]).sync_initial(ns).expect("initial");
+    let mut st = SyncOutcome::default();
+    let msg = one
+        .sync_process(ns, opening, [9u8; 32], &mut st)
+        .expect("process")
+        .expect("a reply");
+    assert!(!iroh_docs::verif::message_values(&msg).is_empty(), "MACHINERY: the crafted Init carries no entry");
+    encode(Frame::Init { namespace: ns, message: msg })
 }
 
 fn encode(f: Frame) -> Vec<u8> {
@@ -353,6 +374,7 @@ async fn scenario_bob(script: &[Choice], accept: Accept, variant: u8, hold: bool
                 })),
                 Choice::Garbage => Some(vec![0, 0, 0, 5, 0xff, 0xff, 0xff, 0xff, 0xff]),
                 Choice::ShortIds => Some(short_id_frame(!alice.inited)),
+                Choice::InitWithEntries => Some(init_with_entries()),
                 Choice::Oversized => {
                     Some(((verif_codec::MAX_MESSAGE_SIZE as u32) + 1).to_be_bytes().to_vec())
                 }
@@ -494,6 +516,7 @@ async fn scenario_alice(script: &[Choice], variant: u8, hold: bool, deadline: Du
                 }
                 Choice::Garbage => Some(vec![0, 0, 0, 5, 0xff, 0xff, 0xff, 0xff, 0xff]),
                 Choice::ShortIds => Some(short_id_frame(false)),
+                Choice::InitWithEntries => Some(init_with_entries()),
                 Choice::Oversized => {
                     Some(((verif_codec::MAX_MESSAGE_SIZE as u32) + 1).to_be_bytes().to_vec())
                 }
@@ -1251,7 +1274,7 @@ fn run(ctx: &Ctx, report: &mut Report) {
     for d in 1..=depth {
         for_each_sequence(ALICE_MENU.len(), d, |seq| {
             let script: Vec<Choice> = seq.iter().map(|&i| ALICE_MENU[i]).collect();
-            let accepts: &[Accept] = if script[0] == Choice::Correct {
+            let accepts: &[Accept] = if matches!(script[0], Choice::Correct | Choice::InitWithEntries) {
                 &[Accept::Allow, Accept::NotFound, Accept::AlreadySyncing, Accept::Internal]
             } else {
                 &[Accept::Allow]
@@ -1270,7 +1293,7 @@ fn run(ctx: &Ctx, report: &mut Report) {
                 let ends_by_itself = accept != Accept::Allow
                     || matches!(last, Choice::Garbage | Choice::ShortIds | Choice::Oversized | Choice::AbortNotFound | Choice::AbortAlreadySyncing | Choice::AbortInternal)
                     || (last == Choice::Init && script.len() >= 2 && script[..script.len() - 1].contains(&Choice::Correct))
-                    || (last == Choice::SyncNow && !script.contains(&Choice::Correct) && !script.contains(&Choice::Init));
+                    || (last == Choice::SyncNow && !script.contains(&Choice::Correct) && !script.contains(&Choice::Init) && !script.contains(&Choice::InitWithEntries));
                 if ends_by_itself && script.len() <= 2 {
                     one(report, Case::Bob { script: script.clone(), accept, variant: (ordinal % 4) as u8, hold: true }, true, ordinal);
                 }
